@@ -15,14 +15,23 @@ RULE = ("executable programs: (a) random nestings of loops (counts 0,1,2,3, let-
 ASSUMPTIONS = ["termination restated as bounded progress: budget = 20000 + 400 * (unrolled size + subcircuits * nodes) * (loop depth + 1) line events",
                "visit sequence judged only when no subcircuit straddles a loop boundary (others: termination and bookkeeping only)"]
 TIERS = {"quick": {"shards": 8, "budget_s": 100}, "thorough": {"shards": 16, "budget_s": 420}}
-REQUIRE = {"overrides-applied-by-the-parser": 200, "macros-expanded-before-overrides": 500, "job-executions-observed": 300, "zero-loop-around-subcircuit": 30, "visit-sequences-compared": 300, "output-lists-compared": 300,
+REQUIRE = {"bracket-programs-built-from-S-expressions": 1000, "overrides-to-a-negative-count": 100, "overrides-applied-by-the-parser": 200, "macros-expanded-before-overrides": 500, "job-executions-observed": 300, "zero-loop-around-subcircuit": 30, "visit-sequences-compared": 300, "output-lists-compared": 300,
            "let-count": 30, "override-count": 10, "readouts-observed": 1000}
 
 
 def judge(case):
     prog = case_prog(case)
     ov = dict(case.get("ov") or {})
-    st, s = X.setup(prog, ov)
+    st, s = X.setup(prog, ov, assemble=case.get("assemble", False))
+    if st == "skipped:no-reference-meaning:negative-count" and hasattr(s, "c"):
+        # a repetition count below zero: what it means is not this property's business, but the call comes back
+        o = X.run(s, ov, seed=1, budget=400000)
+        if o[0] == "budget":
+            return "ok", [("emulator-step-budget-exceeded:negative-repetition-count", {"budget": 400000})], {"subs": 0, "visits": 0, "straddle": False, "n": 0, "budget": 400000, "negative": 1}
+        return "skipped:negative-count-but-terminates", [], None
+    if st.startswith("skipped:input-rejected:JaqalError") and not case.get("assemble") and X.refused_when_built(prog, ov, case.get("variant", "A")):
+        # valid, legally nested, well bracketed: refused before it could be executed
+        return "ok", [("valid-program-not-executed:refused-when-built", {"error": str(s.parse_outcome[2])[:200]})], {"subs": 0, "visits": 0, "straddle": False, "n": 0, "budget": 0}
     if st != "ok":
         return st, [], None
     P = s.P
@@ -123,7 +132,8 @@ def judge_job(s, ov, subs, straddle, info, budget):
         if oo[0] != "ok":
             return "skipped:fill-in-let-rejected", [], info
         c = oo[1]
-    o = lib.outcome(lambda: UnitarySerializedEmulator()(lib.expand_subcircuits(c)))
+    # what run_jaqal_circuit hands to a backend: subcircuits expanded, lets substituted, macros expanded
+    o = lib.outcome(lambda: UnitarySerializedEmulator()(lib.expand_macros(lib.fill_in_let(lib.expand_subcircuits(c)))))
     if o[0] != "ok":
         return "skipped:job-not-created:" + o[1], [], info
     job = o[1]
@@ -293,6 +303,10 @@ def shard(ctx):
         quota_b -= 1
         process(ctx, {"prog": prog, "npseed": j}, seen)
         rec.count("bracket-programs")
+        if j % 3 == 0:
+            # the same program built from its S-expression, subcircuit blocks directly as loop bodies
+            process(ctx, {"prog": prog, "npseed": j, "assemble": "build"}, seen)
+            rec.count("bracket-programs-built-from-S-expressions")
     while i < n and not rec.expired():
         i += 1
         rng = ctx.rng
@@ -306,6 +320,10 @@ def shard(ctx):
             ov = count_override(rng, prog)
             if ov:
                 case["ov"] = ov
+                if rng.random() < 0.1:
+                    k_ = rng.choice(sorted(ov))
+                    ov[k_] = -rng.randint(1, 3)
+                    rec.count("overrides-to-a-negative-count")
         r = rng.random()
         if case.get("ov") and rng.random() < 0.3:
             case["order"] = "PLM"
